@@ -12,7 +12,8 @@ import teneva
 LEVEL = "exploration"
 RULE = ("Hypothesis draws a tensor of TT-rank rho (gauss cores, uniform or ragged ranks 1..3, d 2..5), an expected rank m in rho..rho+2, mode "
         "sizes in m..m+3, a cap r in rho..rho+2 and an integer seed of the sample generator; the tensor is evaluated on sample_tt's set and "
-        "svd_incomplete's result is compared with the dense tensor. Non-trivial = rho >= 2; distinct by SHA-1 of the case.")
+        "svd_incomplete's result is compared with the dense tensor; in 4 of 7 cases the tensor has generic integer cores (-4..4) and its sample values "
+        "are handed over as int64 / int32 / float64 arrays (all exact). Non-trivial = rho >= 2; distinct by SHA-1 of the case.")
 TOLERANCES = "||dense(result) - T|| <= 1e-7 ||T|| when every unfolding has condition number <= 1e6 on its rank (else only well-formedness); ranks <= cap"
 ASSUMPTIONS = ["continuous random cores ('almost all' tensors)", "every mode size >= m (the recovery needs distinct LHS prefixes/suffixes)", "cap r >= rho"]
 
@@ -28,15 +29,22 @@ def cases(draw, tier):
     n = [m + draw(st.integers(0, 3)) for _ in range(d)]
     return {"n": n, "r": r, "seed": draw(gen.seeds), "m": m, "cap": rho + draw(st.integers(0, 2)), "sseed": draw(st.integers(0, 10 ** 6)),
             "scale10": draw(st.sampled_from([0, 0, 2, -2])), "float_cap": draw(st.booleans()),
-            "seed_kind": draw(st.sampled_from(["int", "int", "generator", "generator_philox"]))}
+            "seed_kind": draw(st.sampled_from(["int", "int", "generator", "generator_philox"])),
+            # how the caller stores the sample values: a measured table may well be an integer array (not float32: NumPy then factorises in single precision); generic integer
+            # cores (-4..4) give integer-valued tensors of the same TT-rank whose values every such dtype holds exactly
+            "ydtype": draw(st.sampled_from(["float64", "float64", "float64", "int64", "int32", "int64", "float64_of_int"]))}
 
 
 def prop(case, ctx):
     n, r = case["n"], case["r"]
     d = len(n)
     rng = np.random.default_rng(case["seed"])
-    T = [rng.normal(size=(r[k], n[k], r[k + 1])) for k in range(d)]
-    T[0] = T[0] * 10.0 ** case["scale10"]
+    ydt = case.get("ydtype", "float64")
+    if ydt == "float64":
+        T = [rng.normal(size=(r[k], n[k], r[k + 1])) for k in range(d)]
+        T[0] = T[0] * 10.0 ** case["scale10"]
+    else:
+        T = [rng.integers(-4, 5, size=(r[k], n[k], r[k + 1])).astype(float) for k in range(d)]
     F = dense(T)
     nrm = fro(F)
     rho = max(r)
@@ -50,11 +58,19 @@ def prop(case, ctx):
     I, idx, idx_many = ctx.lib(teneva.sample_tt, n, case["m"], sseed)
     ctx.check(I.ndim == 2 and I.shape[1] == d and I.min() >= 0 and bool(np.all(I.max(axis=0) == np.array(n) - 1)), "sample_tt: indices do not span the shape")
     y = F[tuple(I.T)]
+    if ydt not in ("float64", "float64_of_int"):
+        if ydt in ("int32", "float32") and np.abs(F).max() >= 2 ** 24:
+            ydt = "int64"
+        y = y.astype(ydt)
+        ctx.check(np.array_equal(y.astype(float), F[tuple(I.T)]), "harness: sample values not exactly representable")
+    ctx.label("values_as:" + ydt)
     cap = case["cap"] + (0.5 if case["float_cap"] else 0)
     Y = ctx.lib(teneva.svd_incomplete, I, y, idx, idx_many, 1e-10 * max(nrm, 1e-300) / np.sqrt(F.size), cap)
     why = oracle.wellformed(Y, n)
     ctx.check(why is None, f"svd_incomplete: result not well-formed / wrong shape: {why}")
     ctx.check(max(oracle.ranks_of(Y)) <= int(cap), "svd_incomplete: rank exceeds the cap", ranks=oracle.ranks_of(Y), cap=cap)
+    if nrm == 0:
+        return ctx.label("zero_integer_tensor")
     cond = 1.0
     for k in range(1, d):
         s = oracle.unfold_svals(F, k)
@@ -63,9 +79,19 @@ def prop(case, ctx):
         ctx.label("ill_conditioned")
         return
     err = fro(dense(Y) - F)
+    if ydt != "float64":
+        # small integer cores are not 'almost all' tensors (zero rows, dependent sampled fibres): recovery is required only where the
+        # float64 copy of the same values is recovered; the stored dtype of exactly representable values must never matter
+        Yf = ctx.lib(teneva.svd_incomplete, I, F[tuple(I.T)], idx, idx_many, 1e-10 * max(nrm, 1e-300) / np.sqrt(F.size), cap)
+        ctx.check(oracle.ranks_of(Yf) == oracle.ranks_of(Y) and fro(dense(Yf) - dense(Y)) <= 1e-9 * max(nrm, 1.0),
+                  "svd_incomplete: result depends on the dtype in which the (exactly representable) sample values are stored", values_as=ydt,
+                  diff=fro(dense(Yf) - dense(Y)), ranks_f64=oracle.ranks_of(Yf), ranks=oracle.ranks_of(Y))
+        if fro(dense(Yf) - F) > 1e-7 * nrm:
+            ctx.label("nongeneric_integer_tensor")
+            return
     ctx.check(err <= 1e-7 * nrm, "svd_incomplete did not recover the low-rank tensor", rel_err=err / nrm, ranks=oracle.ranks_of(Y), cond_unfold=cond)
     # a caller may retry with another cap on the SAME sample arrays: they must still hold the samples and give the same tensor
-    ctx.check(np.array_equal(y, F[tuple(I.T)]), "svd_incomplete modified the sample values it was given")
+    ctx.check(np.array_equal(y, F[tuple(I.T)]) and y.dtype == np.dtype(ydt if ydt != "float64_of_int" else "float64"), "svd_incomplete modified the sample values it was given")
     cap2 = rho + (case["cap"] - rho + 1) % 3
     Y2 = ctx.lib(teneva.svd_incomplete, I, y, idx, idx_many, 1e-10 * max(nrm, 1e-300) / np.sqrt(F.size), cap2)
     ctx.check(oracle.wellformed(Y2, n) is None and max(oracle.ranks_of(Y2)) <= cap2, "svd_incomplete (second call, other cap): malformed or rank above the cap",
